@@ -233,8 +233,8 @@ class Enc:
             self.i8(tid, "tid", where="namelist", hasd=d is not None)
             self.optobj(d, "flag_name_dflt")
         for col in cols:
-            for name, tid, d in names:
-                self.optobj(col.get(name), "flag_col")
+            for j, (name, tid, d) in enumerate(names):
+                self.optobj(colval(col, name, j), "flag_col")
 
     def header(self):
         self.sec(1, "fh")
@@ -243,6 +243,16 @@ class Enc:
 
     def end(self):
         self.sec(5, "end")
+
+
+def colval(col, name, j):
+    """value a column holds for name-list row j: columns are dicts name -> Obj; when the name list
+    repeats a name (foreign layouts), the column says which row it means with a key (name, j)"""
+    if (name, j) in col:
+        return col[(name, j)]
+    if any(isinstance(k, tuple) and k[0] == name for k in col):
+        return None
+    return col.get(name)
 
 
 def len7(v):
@@ -368,7 +378,7 @@ def probe_cm(entries):
 def dump_tm(p, probe=True, full=False):
     s = "T" + dump_md(p.tmd, 0, full) + (probe_md(p.tmd, full) if probe else "") + "N%d" % len(p.cols)
     for i, col in enumerate(p.cols):
-        entries = [(n, col[n], d) for n, t, d in p.names if n in col]
+        entries = [(n, colval(col, n, j), d) for j, (n, t, d) in enumerate(p.names) if colval(col, n, j) is not None]
         s += "C" + dump_md(entries, 0, full)
         if probe and i < 64:
             s += probe_md(entries, full) + probe_cm(entries)
